@@ -14,7 +14,8 @@ from vlib.harness import Sub
 PROPERTY = "C04"
 RULE = ("selective: generated outputs (as C01; 3-D at 75%, Hilbert ordering at 75%, 2-9 CPUs, ownership of every oct by "
         "the Hilbert key of its father cell's centre, adversarial bound keys: uniform / random / clustered / cut at cube "
-        "boundaries) x 3-6 predicates each: open position intervals on a subset of axes (all axes at 70%) placed around "
+        "boundaries / tail / head; plus the regimes many_cpus (24-64 CPUs) and deep (levelmax 15-17, refinement chain "
+        "towards a coarse cube boundary)) x 3-6 predicates each: open position intervals on a subset of axes (all axes at 70%) placed around "
         "a leaf drawn uniformly or by volume, widths 0.02-8 leaf sizes (so boxes smaller than the leaf they hit occur by "
         "construction), touching the domain edge at 15%, endpoints at (k+0.25|0.75) 2^-levelmax (never at a cell "
         "centre), optionally ANDed with a value predicate.  Oracle: the model's leaf table filtered by the same "
